@@ -35,7 +35,7 @@ def app_cls(ctx):
     return ctx.repo.cls(APP, "ControllerApplication")
 
 
-def explore_write(ctx, version=8, hashed="aa"):
+def explore_write(ctx, version=8, hashed="aa", stack_specific=None):
     repo = ctx.repo
     f = repo.func(f"{APP}:ControllerApplication.write_network_info")
     models = [wrap("t.KeyData"), wrap("t.EUI64"), wrap("t.Channels"), ("util.zha_security", lambda px, t, a, k, fr: Sym("isc")),
@@ -43,7 +43,9 @@ def explore_write(ctx, version=8, hashed="aa"):
     px = PX(repo, models=models, inline=same_class(stop=("reset_network_info", "_reset", "_ensure_network_running")), max_paths=5000)
 
     def setup():
-        ni = Obj(TypeRef("NetworkInfo"), {"stack_specific": {"ezsp": {"hashed_tclk": hashed}} if hashed else {},
+        import copy
+
+        ni = Obj(TypeRef("NetworkInfo"), {"stack_specific": copy.deepcopy(stack_specific) if stack_specific is not None else ({"ezsp": {"hashed_tclk": hashed}} if hashed else {}),
                                           "network_key": Obj(TypeRef("Key"), {}, tag="ni.network_key"),
                                           "tc_link_key": Obj(TypeRef("Key"), {}, tag="ni.tc_link_key"), "children": [Sym("child1")],
                                           "nwk_addresses": {Sym("child1"): Sym("nwk1")}, "key_table": Sym("ni.key_table")}, tag="ni")
@@ -172,8 +174,10 @@ def r14_3(ctx):
     for known in (True, False):
         for hashed in (True, False):
             px = PX(repo, models=models, inline=same_class(),
+                    # the partner address is an object that compares equal to the UNKNOWN constant (or not) but is never the very same
+                    # object (addresses read from a backup are fresh objects)
                     facts={"(ni.tclk.partner == zigpy_t.EUI64.UNKNOWN)": not known, "(EUI64.UNKNOWN == ni.tclk.partner)": not known,
-                           "(ni.tclk.key == wellknown)": True})
+                           "(UNKNOWN == ni.tclk.partner)": not known, "(UNKNOWN is ni.tclk.partner)": False, "(ni.tclk.key == wellknown)": True})
 
             def setup():
                 ni = Obj(TypeRef("NetworkInfo"), {"network_key": Obj(TypeRef("Key"), {"key": Sym("ni.nk.key"), "seq": Sym("ni.nk.seq"), "tx_counter": Sym("x")}, tag="nk"),
@@ -185,7 +189,7 @@ def r14_3(ctx):
             paths = px.explore(f, setup)
             for p in paths:
                 key = f"partner={'known' if known else 'unknown'},hashed={hashed}"
-                unk = [v for t, v in p.assumes if "UNKNOWN" in t]
+                unk = [v for t, v in p.assumes if "UNKNOWN" in t and " is " not in t]
                 if unk and unk[0] != (not known):
                     continue
                 ctx.paths += 1
@@ -303,8 +307,32 @@ def r14_5(ctx):
             zs = [e for e in p.events if e.kind == "call" and e.what == "util.zha_security"]
             ctx.require(len(zs) == 1 and zs[0].kwargs.get("use_hashed_tclk") == (version > 4) and getattr(zs[0].kwargs.get("network_info"), "tag", "") == "ni",
                         f"security-state-args:v{version}", f"v{version}: zha_security called with {zs[0].kwargs if zs else None!r:.100}", func=f)
+            for hs in (None, "", "aa"):
+                pass
             wc = [e for e in p.events if e.kind == "await" and e.what.endswith("write_child_data")]
             ctx.require(wc and wc[0].args[:1] == ({Sym("child1"): Sym("nwk1")},), f"children:v{version}", f"children written as {wc[0].args if wc else None!r}", func=f)
+
+
+@rule("R14.8", ["C14"], "T-FLOW", floor=4)
+def r14_8(ctx):
+    """The hashed trust-centre link key reaches the security state whatever the backup looked like: for backups
+    whose stack-specific data has no 'ezsp' section, an empty one, or a stored hash, on versions that hash (5+), the
+    network info handed to zha_security carries stack_specific['ezsp']['hashed_tclk'] (generated when absent, the
+    stored one otherwise), so building the security state cannot fail after the NCP has already been wiped."""
+    for version in (5, 14):
+        for label, ss in (("no-ezsp-section", {}), ("empty-ezsp-section", {"ezsp": {}}), ("stored-hash", {"ezsp": {"hashed_tclk": "aa"}})):
+            f, paths = explore_write(ctx, version, hashed=None, stack_specific=ss)
+            done = [p for p in paths if p.terminal == "return"]
+            ctx.anchor(done, f"write_network_info completes (v{version}, {label})")
+            for p in done:
+                ctx.paths += 1
+                zs = [e for e in p.events if e.kind == "call" and e.what == "util.zha_security"]
+                ni = zs[0].kwargs.get("network_info") if zs else None
+                cur = ni.fields.get("stack_specific") if isinstance(ni, Obj) else None
+                h = cur.get("ezsp", {}).get("hashed_tclk") if isinstance(cur, dict) and isinstance(cur.get("ezsp", {}), dict) else None
+                ok = bool(h) and (label != "stored-hash" or h == "aa")
+                ctx.require(ok, f"hashed-tclk-supplied:{label}", f"v{version}, backup with {label}: zha_security receives stack_specific {cur!r:.80}; "
+                            "stack_specific['ezsp']['hashed_tclk'] must be present (zha_security reads it)", func=f, trace=p.trace(12))
 
 
 @rule("R14.6", ["C14"], "T-FLOW", floor=20)
